@@ -19,6 +19,33 @@ func cmdC08Corr(seed uint64, n int, dir string) {
 	for c := 0; c < n; c++ {
 		l := g.VerifNewLookup()
 		l.Begin()
+		// oracle: Go's block scoping as a stack of maps name -> variable identity (creation order)
+		blocks := []map[string]int{{}}
+		fresh := 0
+		oDeclare := func(nm string) int {
+			top := blocks[len(blocks)-1]
+			if id, ok := top[nm]; ok {
+				return id
+			}
+			top[nm] = fresh
+			fresh++
+			return fresh - 1
+		}
+		oResolve := func(nm string) (int, bool) {
+			for i := len(blocks) - 1; i >= 0; i-- {
+				if id, ok := blocks[i][nm]; ok {
+					return id, true
+				}
+			}
+			return 0, false
+		}
+		var trace []string
+		bad := ""
+		noteBad := func(what string) {
+			if bad == "" {
+				bad = what
+			}
+		}
 		depth := 1
 		maxDepth := 1
 		var ops, ans []string
@@ -30,6 +57,8 @@ func cmdC08Corr(seed uint64, n int, dir string) {
 			switch {
 			case x < 22 && depth < 9:
 				l.Begin()
+				blocks = append(blocks, map[string]int{})
+				trace = append(trace, "{")
 				depth++
 				if depth > maxDepth {
 					maxDepth = depth
@@ -38,41 +67,74 @@ func cmdC08Corr(seed uint64, n int, dir string) {
 				ans = append(ans, "None")
 			case x < 44 && depth > 1:
 				l.End()
+				blocks = blocks[:len(blocks)-1]
+				trace = append(trace, "}")
 				depth--
 				ops = append(ops, "SEnd")
 				ans = append(ans, "None")
 			case x < 70:
 				n := l.Declare(nm)
+				trace = append(trace, "declare "+nm)
+				if exp := oDeclare(nm); exp != n {
+					noteBad(fmt.Sprintf("declaration of %s got slot %d, a new variable would be %d", nm, n, exp))
+				}
 				ops = append(ops, "SDeclare "+coqStrLit(nm))
 				ans = append(ans, fmt.Sprintf("Some (Some %d)", n))
 			case x < 74:
 				tmp++
 				t := fmt.Sprintf("in:%d:%d", c, tmp)
 				n := l.Index(t)
+				oDeclare(t)
+				trace = append(trace, "temp "+t)
 				ops = append(ops, "STemp "+coqStrLit(t))
 				ans = append(ans, fmt.Sprintf("Some (Some %d)", n))
 			default:
 				ops = append(ops, "SResolve "+coqStrLit(nm))
+				trace = append(trace, "use "+nm)
+				eid, eok := oResolve(nm)
 				if l.Exists(nm) {
-					ans = append(ans, fmt.Sprintf("Some (Some %d)", l.Index(nm)))
+					got := l.Index(nm)
+					ans = append(ans, fmt.Sprintf("Some (Some %d)", got))
+					if !eok {
+						noteBad(fmt.Sprintf("%s resolves to local slot %d but no enclosing block declares it", nm, got))
+					} else if eid != got {
+						noteBad(fmt.Sprintf("%s resolves to slot %d, the innermost enclosing declaration is variable %d", nm, got, eid))
+					}
 				} else {
 					ans = append(ans, "Some None")
+					if eok {
+						noteBad(fmt.Sprintf("%s is not found although an enclosing block declares it (variable %d)", nm, eid))
+					}
 				}
 			}
 		}
 		for depth > 1 {
 			l.End()
+			blocks = blocks[:len(blocks)-1]
+			trace = append(trace, "}")
 			depth--
 			ops = append(ops, "SEnd")
 			ans = append(ans, "None")
 			for _, nm := range names[:3] {
 				ops = append(ops, "SResolve "+coqStrLit(nm))
+				trace = append(trace, "use "+nm)
+				eid, eok := oResolve(nm)
 				if l.Exists(nm) {
-					ans = append(ans, fmt.Sprintf("Some (Some %d)", l.Index(nm)))
+					got := l.Index(nm)
+					ans = append(ans, fmt.Sprintf("Some (Some %d)", got))
+					if !eok || eid != got {
+						noteBad(fmt.Sprintf("after the block ends %s resolves to slot %d (expected %v %d)", nm, got, eok, eid))
+					}
 				} else {
 					ans = append(ans, "Some None")
+					if eok {
+						noteBad(fmt.Sprintf("after the block ends %s is not found (expected variable %d)", nm, eid))
+					}
 				}
 			}
+		}
+		if bad != "" {
+			st.mismatchG("scope-ops|"+strings.SplitN(bad, " ", 2)[0], map[string]any{"kind": "scope operation sequence (Begin/End/Declare/Resolve through the real lookup and compiler.Shadow)", "what": bad, "ops": strings.Join(trace, "; ")})
 		}
 		cases = append(cases, fmt.Sprintf("CScope [%s] [%s] %d", strings.Join(ops, "; "), strings.Join(ans, "; "), l.Cap()))
 		st.add(fmt.Sprintf("maxdepth=%d", maxDepth), fmt.Sprintf("ops=%d maxdepth=%d slots=%d", len(ops), maxDepth, l.Len()))
